@@ -152,7 +152,7 @@ def bigraphArgs? (kv : KV) : Option BigraphArgs := do
          colorCol := ← fld kv "color_col" pystr? py!"gray", labelColors := ← fld kv "label_colors" labelColors? .none,
          displayEdges := ← fld kv "display_edges" bool? true, edgeLabels := ← fld kv "edge_labels" edgeLabels? [],
          edgeColor := ← fld kv "edge_color" optStr? (some py!"black"), width := ← fld kv "width" optRat? (some 400),
-         height := ← fld kv "height" optRat? (some 300) }
+         height := ← fld kv "height" optRat? (some 300), posLen := ← fld kv "pos_len" optNat? none }
 
 def merges? (s : String) : Option (List (Nat × Nat)) :=
   (splitList s ";").mapM fun (t : String) =>
@@ -182,28 +182,18 @@ def answer (r : Except PyErr Drawing) : String :=
   | .ok d => "ok " ++ showDoc (render d.svg)
   | .error e => "err " ++ e.show
 
-def specAnswer (kv : KV) (doc : PyStr) (e : Expected) (geom : List Piece → Bool := fun _ => true) : String :=
+def specAnswer (kv : KV) (doc : PyStr) (e : Expected) (geom : List Piece → Option Bool := fun _ => some true) :
+    String :=
   if get kv "expat" == some "0" then "fails xml-parser-rejects " ++ docReport doc e
   else if docMeets doc e then
     (match parseDoc doc with
-     | some ps => if geom ps then "holds" else "fails edge-paths-do-not-join-their-end-nodes"
+     | some ps =>
+       (match geom ps with
+        | some true => "holds"
+        | some false => "fails edge-paths-do-not-join-their-end-nodes"
+        | none => "holds geometry-inconclusive")
      | none => "fails")
   else "fails " ++ docReport doc e
-
-def nearAnswer (kv : KV) (doc : PyStr) (lo hi : Expected) : String :=
-  if get kv "expat" == some "0" then "fails xml-parser-rejects"
-  else if !wf doc then "fails not-well-formed"
-  else match parseDoc doc with
-    | none => "fails not-well-formed"
-    | some ps =>
-      let o := observed ps
-      if rootName ps != some py!"svg" then "fails root-not-svg"
-      else if o.circles != hi.circles || o.sectors != hi.sectors || o.texts != hi.texts then
-        "fails " ++ docReport doc hi
-      else if o.edgePaths == hi.edgePaths then "holds"
-      else if lo.edgePaths ≤ o.edgePaths && o.edgePaths ≤ hi.edgePaths then
-        s!"fails sub-resolution edgePaths={o.edgePaths}/{hi.edgePaths} (an arrow between nodes at distinct positions closer than the float64 resolution of the rescaled layout is not drawn)"
-      else "fails " ++ docReport doc hi
 
 def handle : Handler
   | "c20.graph", toks => some <| Option.getD (do
@@ -224,14 +214,7 @@ def handle : Handler
   | "c20.spec_graph", toks => some <| Option.getD (do
       let kv := kvOf toks
       let a ← graphArgs? kv
-      let doc ← doc? kv
-      match get kv "pos_lo" with
-      | none => some (specAnswer kv doc (expectedGraph a) (geomGraph a))
-      | some v => do
-        -- near-coincident positions: the number of edge paths must lie between the expectation with these nodes
-        -- merged (`pos_lo`) and the exact expectation
-        let lo ← pos? v
-        some (nearAnswer kv doc (expectedGraph { a with pos := lo }) (expectedGraph a))) "bad-args"
+      some (specAnswer kv (← doc? kv) (expectedGraph a) (geomGraph a))) "bad-args"
   | "c20.spec_bigraph", toks => some <| Option.getD (do
       let kv := kvOf toks
       let a ← bigraphArgs? kv
